@@ -81,6 +81,32 @@ def small_dense(rng, n=None, p=0.7):
     return (seq_for(n, rng), pairs)
 
 
+def tight(rng, n=None, ntypes=3, fill=0.9):
+    """structure decoded from a random balanced multi-type bracket string with few dots: stems that abut
+    (opening nucleotide directly after another stem's strand), crossing groups with odd geometry"""
+    import string as _s
+    OPEN = "([{<" + _s.ascii_uppercase
+    CLOSE = ")]}>" + _s.ascii_lowercase
+    if n is None:
+        n = rng.randint(6, 28)
+    s = ["."] * n
+    free = list(range(n))
+    rng.shuffle(free)
+    placed = {t: [] for t in range(ntypes)}
+    k = int(n * fill / 2)
+    for _ in range(k):
+        if len(free) < 2:
+            break
+        a, b = free.pop(), free.pop()
+        i, j = min(a, b), max(a, b)
+        for t in rng.sample(range(ntypes), ntypes):
+            if all(not (x < i < y < j or i < x < j < y) for x, y in placed[t]):
+                placed[t].append((i, j))
+                s[i], s[j] = OPEN[t], CLOSE[t]
+                break
+    return from_dbn("".join(s), seq_for(n, rng))
+
+
 def ladder(k, stemlen=1, gap=0):
     """k mutually crossing stems: opening blocks 1..k then closing blocks 1..k (needs k levels)"""
     n = 2 * k * (stemlen + gap)
